@@ -1,5 +1,5 @@
 #![allow(dead_code)]
 use parity_scale_codec::{Compact, Decode, Encode};
-#[derive(parity_scale_codec::CompactAs)]
-pub struct T { a: u32, b: u8 }
+#[derive(Encode, Decode)]
+pub struct T(#[codec(skip, compact)] pub u32);
 fn main() {}
